@@ -148,6 +148,17 @@ theorem revoke_request_unknown_key_refused (res : List Nat) (c : ChildM) (rcn ke
     (processChildRevokeKey res c rcn key).positive = false := by
   simp [processChildRevokeKey, hclass, hiss, RevokeOut.positive]
 
+/-- What remains open (finding F-C03-2): the hypothesis "the class exists" cannot be dropped.  A
+class-name mapping whose parent-side class does not exist (accepted with a warning by
+`process_child_resource_class_name_mapping`) shadows the name the child uses for a real class; the
+request is then translated to the missing class, ignored – and still answered positively.
+Full statement (false): `∀ res c rcn key, positive → c.isIssued key → ∃ my, … = .revoked my key`. -/
+theorem revoke_request_ignored_for_missing_class :
+    ∃ (res : List Nat) (c : ChildM) (rcn key : Nat),
+      (processChildRevokeKey res c rcn key).positive = true ∧ c.isIssued key = true ∧ rcn ∈ res ∧
+      processChildRevokeKey res c rcn key = .ignored :=
+  ⟨[0], { usedKeys := [(5, some 0)], rcnMap := [(7, 0)] }, 0, 5, by decide, by decide, by decide, by decide⟩
+
 /-- The behaviour before fix 43d7eca0 (finding F-C03-1, replayed on the code at the time): the class
 was looked up under the *child's* name before translating it, so a request under a mapped class
 name was ignored and still answered positively. -/
